@@ -6,7 +6,7 @@ import json
 from vlib import core
 from checks import parsegen, parse_common
 
-THEOREMS = ["C09_parse_total", "C09_parse_old_refuted"]
+THEOREMS = ["C09_parse_total", "C09_scan_boundaries", "C09_parse_old_refuted", "C09_parse_fixed_witness"]
 PROPS = "theories/Props/C09.v"
 
 
